@@ -235,6 +235,8 @@ func (w *World) decoderRows(k *Kind, dfi *FuncInfo) (rows [][5]string, needs []s
 }
 
 func runC04(w *World, r *Report) {
+	r.Rule("reject", "every error exit of a decoder is behind a short input, a failed child or an unknown code, or is a reviewed rejection by value (spec/rejections.json)", 20)
+	rejectRule(w, r, "reject", func(pkg string) bool { return pkg == "openflow13" || pkg == "common" || pkg == "protocol" })
 	r.Rule("dispatch", "type codes allocate the kind the specification table names", 60)
 	r.Rule("rlayout", "every specified field is read from its specified offset, width and byte order into the mapped Go field", 250)
 	r.Rule("prealloc", "decoders that rely on preallocated receiver slices only ever get receivers built by the constructor", 5)
